@@ -93,3 +93,77 @@ func Memo(key string, f func() []byte) []byte { return f() }
 func Register(name string, f func()) { registry[name] = f }
 
 var registry = map[string]func(){}
+
+// DeclaredSamples parses, independently of the library, the first frame header
+// of a T.81 / T.87 marker stream (SOFn, SOF55) and returns width*height*
+// components, or 0 when the stream declares nothing it can find.
+func DeclaredSamples(data []byte) int {
+	i := 2
+	for steps := 0; steps < 64 && i+3 < len(data); steps++ {
+		if data[i] != 0xFF {
+			return 0
+		}
+		m := data[i+1]
+		if m == 0xFF { // fill byte
+			i++
+			continue
+		}
+		if m == 0xD8 || (m >= 0xD0 && m <= 0xD7) || m == 0x01 {
+			i += 2
+			continue
+		}
+		if m == 0xD9 || m == 0xDA {
+			return 0
+		}
+		l := int(data[i+2])<<8 | int(data[i+3])
+		isSOF := (m >= 0xC0 && m <= 0xCF && m != 0xC4 && m != 0xC8 && m != 0xCC) || m == 0xF7
+		if isSOF {
+			if i+9 >= len(data) {
+				return 0
+			}
+			h := int(data[i+5])<<8 | int(data[i+6])
+			w := int(data[i+7])<<8 | int(data[i+8])
+			n := int(data[i+9])
+			return w * h * n
+		}
+		if l < 2 {
+			return 0
+		}
+		i += 2 + l
+	}
+	return 0
+}
+
+// DeclaredSamplesJ2K does the same for a JPEG 2000 codestream (SIZ directly
+// after SOC): (Xsiz-XOsiz)*(Ysiz-YOsiz)*Csiz, 0 when absent or inconsistent.
+func DeclaredSamplesJ2K(data []byte) int {
+	if len(data) < 42 || data[0] != 0xFF || data[1] != 0x4F || data[2] != 0xFF || data[3] != 0x51 {
+		return 0
+	}
+	xs, ys, xo, yo := be32(data, 8), be32(data, 12), be32(data, 16), be32(data, 20)
+	c := int(data[40])<<8 | int(data[41])
+	if xs <= xo || ys <= yo {
+		return 0
+	}
+	return (xs - xo) * (ys - yo) * c
+}
+
+// C09Guard: when the run parameter c09 is set, restrict the input to those the
+// property quantifies over: the first frame header declares at most 2^22
+// samples (or nothing).  kind 0: marker stream, 1: JPEG 2000 codestream.
+func C09Guard(data []byte, kind int) {
+	if Param("c09", 0) == 0 {
+		return
+	}
+	s := 0
+	if kind == 1 {
+		s = DeclaredSamplesJ2K(data)
+	} else {
+		s = DeclaredSamples(data)
+	}
+	Assume(s >= 0 && s <= 1<<22)
+}
+
+func be32(data []byte, o int) int {
+	return int(data[o])<<24 | int(data[o+1])<<16 | int(data[o+2])<<8 | int(data[o+3])
+}
